@@ -45,7 +45,7 @@ FORMATS = {
     # 512-byte clusters: 64 L2 entries per table, so a disk of 4 GiB + already needs more than 131072 L1 entries (1 MiB of L1)
     "qcow2-512": dict(unit=512, scales={"4g": (1 << 23) + 77, "16g": (1 << 25) + 5}, places=["low", "b32"]),
     "vmdk-hosted": dict(unit=65536, scales={"small": 1 << 14, "4g": (1 << 16) + 77, "limit": (1 << 25) - 1},
-                        places=["low", "b32", "top"]),
+                        places=["low", "b32", "top", "gd-ffffffff", "gd-1ffffffff", "gd-7fffffff"]),
     "vmdk-stream": dict(unit=65536, scales={"small": 1 << 14, "4g": (1 << 16) + 77, "limit": (1 << 25) - 1},
                         places=["low", "b32", "top"]),
     "vmdk-sesparse": dict(unit=4096, scales={"small": 1 << 16, "4g": (1 << 20) + 77, "2t": (1 << 29) + 5, "limit": 1 << 32},
@@ -261,8 +261,12 @@ def _build(fmt, total, place, placed):
 
         states, slots = _dense_lists(placed, total, DATA, HOLE, fmt=fmt)
         grain = unit // 512
-        tb, db = {"low": (None, None), "b32": ((1 << 23) + 64, (1 << 24)), "top": ((1 << 32) - (1 << 22), (1 << 32) - (1 << 21))}[place]
-        img = B.build_hosted(states, slots, grain, 512, total * grain - 3, 0, total, table_base=tb, data_base=db)
+        tb, db = {"low": (None, None), "b32": ((1 << 23) + 64, (1 << 24)), "top": ((1 << 32) - (1 << 22), (1 << 32) - (1 << 21))}.get(
+            place, (None, None))
+        # the grain directory alone far into the file: its 64-bit offset ends in 32 one-bits (sector 0xFFFFFFFF, 0x1FFFFFFFF) or
+        # is 0x7FFFFFFF; the value 2^64 - 1 alone means "see the footer"
+        gd_at = {"gd-ffffffff": 0xFFFFFFFF, "gd-1ffffffff": 0x1FFFFFFFF, "gd-7fffffff": 0x7FFFFFFF}.get(place)
+        img = B.build_hosted(states, slots, grain, 512, total * grain - 3, 0, total, table_base=tb, data_base=db, gd_at=gd_at)
         model = B.model(states, grain, total * grain - 3, 0, total)
         return img, model, lambda fh: VMDK(fh)
     if fmt == "vmdk-stream":
